@@ -16,6 +16,8 @@
 (*   pubB(m, topic, ids)          a publish of m to the listed ids begins  *)
 (*   pubE(m, okids)               it returned; okids = ids reported true   *)
 (*   pollE(id, res)               a poll of id returned res: topic -> msgs *)
+(*   lapse(id)                    the client id did not poll for longer    *)
+(*                                than the heart beat                      *)
 (*   drain(id)                    the harness has polled id until two      *)
 (*                                consecutive polls came back empty, with  *)
 (*                                no publish in flight                     *)
@@ -74,6 +76,14 @@ Apply(s, e) ==
                         THEN s.del[k] + Len(e.res[CHOOSE t \in ts : k = Key(e.id, t)])
                         ELSE s.del[k]]]}
             ELSE {}
+      [] e.ev = "lapse" ->
+            \* the client let the heart beat pass: the broker may have taken it offline (all its
+            \* subscriptions, with what was queued for them), or not (the heart beat only runs after a
+            \* delivery); later events tell
+            LET ks == {k \in s.subs : \E t \in {"t", "u"} : k = Key(e.id, t)} IN
+            {s, [s EXCEPT !.subs = @ \ ks,
+                          !.acc = [x \in (DOMAIN s.acc) \ ks |-> s.acc[x]],
+                          !.del = [x \in (DOMAIN s.del) \ ks |-> s.del[x]]]}
       [] e.ev = "drain" ->
             IF s.open = {} /\ \A k \in s.subs : (\E t \in {e.topics[i] : i \in DOMAIN e.topics} : k = Key(e.id, t))
                                                     => s.del[k] = Len(s.acc[k])
